@@ -73,6 +73,15 @@ def cases(tier, seed):
         for f in forms:
             out.append(dict(c, K=Kc, form=f, sim='fast'))
             out.append(dict(c, K=Kc, form=f, sim='compiled', init=['zero', 'ones', 'alt'][i % 3]))
+    # initial-state rules under a non-zero default_value: explicit zeros (reset_value=0, a 0 in register_value_map) must win
+    regd = [dict(c, reset=r) for c in designs.op_cases([1, 3, 65], ops='w+', dests=('reg',)) for r in (None, 0, 1)]
+    regd += designs.seq_cases(widths=(3,)) + designs.expr_cases(6 if tier == 'quick' else 30, seed + 77, n=5, maxw=5, nreg=2)
+    for c in regd:
+        for dv in (1, 5):
+            for rmap in ('none', 'zeros'):
+                out.append(dict(c, K=2, form='pre', sim='fast', dv=dv, rmap=rmap))
+                if c.get('fam') == 'OP' and c.get('op') == 'w' and dv == 1:
+                    out.append(dict(c, K=2, form='pre', sim='compiled', init='zero', dv=dv, rmap=rmap))
     # the memory model of the C back end rests on its hash-map helper text: checked by vf/chelper.py
     out.append({'fam': 'HELPER', 'k': 'chelper', 'limbs': 1, 'backend': 'compiled'})
     out.append({'fam': 'HELPER', 'k': 'chelper', 'limbs': 2, 'backend': 'compiled'})
@@ -135,7 +144,27 @@ def run_case(case, ob, tier):
     sym.MUL['exact_max'] = 4
     sym.UF_FACTS.clear()
     try:
-        if case['sim'] == 'fast':
+        dv = case.get('dv', 0)
+        if dv and any(dv > r.bitmask for r in block.wirevector_subset(pyrtl.Register)):
+            ob.notes.append('default_value not representable in some register: outside the legal initial assignments, skipped')
+            ob.fact('skipped', True)
+        elif dv:
+            # initial-state rules: register_value_map absent ('none') or holding explicit zeros, non-zero default_value
+            rinit = 'reset' if case['rmap'] == 'none' else {r.name: 0 for r in block.wirevector_subset(pyrtl.Register)}
+            sp = spec.run(block, K, v, reg_init=rinit, mem_init='default', default_value=dv)
+            assume = [z3.Not(d) for d in sp.double_write]
+            with sym_env([block]):
+                ra = run_sim(block, K, v, kind='sim', reg_init=rinit, mem_init='default', default_value=dv, track='io', assumptions=assume)
+            if case['sim'] == 'fast':
+                with sym_env([block]):
+                    rb = run_sim(block, K, v, kind='fast', reg_init=rinit, mem_init='default', default_value=dv, track='io',
+                                 assumptions=assume)
+                compare(ob, block, ra, rb, assume, v, site + ':default_value', K, all_wires=False)
+            else:
+                cm = CompiledModel(block, regvals=None if rinit == 'reset' else rinit, memvals=None, default_value=dv)
+                rb = run_compiled(cm, K, v, assumptions=assume)
+                compare(ob, block, ra, rb, assume, v, site + ':default_value', K, all_wires=False, compiled=True, mems=False)
+        elif case['sim'] == 'fast':
             sp = spec.run(block, K, v, reg_init='sym', mem_init='sym')
             assume = [z3.Not(d) for d in sp.double_write]
             with sym_env([block]):
@@ -164,7 +193,7 @@ def run_case(case, ob, tier):
         sym.MUL['exact_max'] = 8
 
 
-def compare(ob, block, ra, rb, assume, v, site, K, all_wires, compiled=False):
+def compare(ob, block, ra, rb, assume, v, site, K, all_wires, compiled=False, mems=True):
     ob.paths += len(ra) + len(rb)
     for pa in ra:
         for pb in rb:
@@ -188,7 +217,7 @@ def compare(ob, block, ra, rb, assume, v, site, K, all_wires, compiled=False):
                 for t in range(K):
                     goals.append(('wire:%s@%d' % (name, t), to_bv(pa.trace[name][t], w.bitwidth + 1) == to_bv(pb.trace[name][t], w.bitwidth + 1),
                                   site + ':value'))
-            for mid, mem in simdrv.mems_of(block).items():
+            for mid, mem in (simdrv.mems_of(block).items() if mems else ()):
                 if compiled:
                     arr64, limbs = pb.mems[mem.name]
                     qa = z3.BitVec('qaddr_%s' % mem.name, mem.addrwidth)
@@ -226,12 +255,16 @@ def replay(cex):
         regs, mems = init_values(case, block)
         mv = dict(mv, regs=regs, mems={k: {str(a): x for a, x in d.items()} for k, d in mems.items()})
     track = 'all' if case['sim'] == 'fast' else 'io'
+    kw = dict(reg_init='sym', mem_init='sym', track=track)
+    if case.get('dv'):
+        mv = dict(mv, regs={r.name: 0 for r in block.wirevector_subset(pyrtl.Register)}, mems={})
+        kw = dict(reg_init='reset' if case['rmap'] == 'none' else 'sym', mem_init='default', default_value=case['dv'], track='io')
     try:
-        ta, ma, _ = concrete.sim_concrete(block, K, mv, kind='sim', reg_init='sym', mem_init='sym', track=track)
+        ta, ma, _ = concrete.sim_concrete(block, K, mv, kind='sim', **kw)
     except Exception as e:
         ta, ma = e, None
     try:
-        tb, mb, simb = concrete.sim_concrete(block, K, mv, kind=case['sim'], reg_init='sym', mem_init='sym', track=track)
+        tb, mb, simb = concrete.sim_concrete(block, K, mv, kind=case['sim'], **kw)
     except Exception as e:
         tb, mb = e, None
     if isinstance(ta, Exception) or isinstance(tb, Exception):
